@@ -1295,10 +1295,18 @@ impl Compiler {
                 if register != value_register {
                     self.push_op(Copy, &[register, value_register]);
                 }
+                if value_result.is_temporary {
+                    self.pop_register()?;
+                }
                 CompileNodeOutput::with_assigned(register)
             }
             ResultRegister::Any => value_result,
-            ResultRegister::None => CompileNodeOutput::none(),
+            ResultRegister::None => {
+                if value_result.is_temporary {
+                    self.pop_register()?;
+                }
+                CompileNodeOutput::none()
+            }
         };
 
         self.pop_span();
